@@ -98,6 +98,67 @@ def _difference(frozen, live, path='result'):
         return None
 
 
+def _leaves(live, path='result', key=None):
+    """(path, last key, array) of every ndarray in a retained structure."""
+    import numpy as np
+
+    if isinstance(live, dict):
+        for k, v in live.items():
+            yield from _leaves(v, f'{path}[{k!r}]', k)
+    elif isinstance(live, (list, tuple)):
+        for i, v in enumerate(live):
+            yield from _leaves(v, f'{path}[{i}]', key)
+    elif isinstance(live, np.ndarray) and live.size:
+        yield path, key, live
+    else:
+        try:
+            import pandas as pd
+
+            if isinstance(live, pd.DataFrame) and live.size:
+                for c in live.columns:
+                    yield f'{path}[{c!r}]', (key, c), live[c].to_numpy(copy=False)
+        except Exception:  # noqa: BLE001
+            return
+
+
+def _shares(a, b):
+    import numpy as np
+
+    if a is b:
+        return True
+    if not np.may_share_memory(a, b):
+        return False
+    try:
+        return bool(np.shares_memory(a, b, max_work=100000))
+    except Exception:  # noqa: BLE001  (too hard to decide exactly: not reported)
+        return False
+
+
+def _aliasing(live, owner, check_owner):
+    """Buffers shared (i) between arrays of one result that play different roles, (ii) between the result and the
+    array attributes of the object it was asked of (only where the check says results are the caller's own)."""
+    import numpy as np
+
+    notes = []
+    leaves = list(_leaves(live))
+    if len(leaves) > 64:
+        leaves = leaves[:64]
+    for i in range(len(leaves)):
+        for j in range(i + 1, len(leaves)):
+            (pa, ka, a), (pb, kb, b) = leaves[i], leaves[j]
+            if ka != kb and a is not b and _shares(a, b):
+                notes.append(f'{pa} and {pb} share one buffer (editing one rewrites the other)')
+            elif ka != kb and a is b:
+                notes.append(f'{pa} and {pb} are the same array object')
+    if check_owner and owner is not None and hasattr(owner, '__dict__'):
+        for nm, val in list(vars(owner).items()):
+            if isinstance(val, np.ndarray) and val.size:
+                for pa, _ka, a in leaves:
+                    if _shares(a, val):
+                        notes.append(f'{pa} is a view of the attribute .{nm} of the object it was asked of (editing the result rewrites the object)')
+    return notes[:4]
+
+
 def _scribble(live):
     """Overwrite the arrays of a result that is no longer needed (what a caller editing its result does)."""
     import numpy as np
@@ -134,7 +195,7 @@ class Monitor:
         self.retention = Counter()
 
     # ------------------------------------------------------------------------------------------
-    def _wrap_function(self, label, fn, pre, post, retain=None, scribble=False):
+    def _wrap_function(self, label, fn, pre, post, retain=None, scribble=False, own_result=False):
         mon = self
 
         @functools.wraps(fn)
@@ -163,7 +224,12 @@ class Monitor:
                     live = None
                 if live is not None:
                     mon._retained_per_label[label] += 1
-                    mon._retained.append([label, live, _freeze(live), mon.unit_no, scribble])
+                    try:
+                        notes = _aliasing(live, args[0] if args else None, own_result)
+                    except Exception:  # noqa: BLE001
+                        notes = []
+                    mon.retention['retained_results_examined_for_shared_buffers'] += 1
+                    mon._retained.append([label, live, _freeze(live), mon.unit_no, scribble, notes])
             return result
 
         wrapper.__gv_original__ = fn
@@ -174,7 +240,11 @@ class Monitor:
         ones that have survived a whole further unit."""
         keep, drop = [], []
         for ent in self._retained:
-            label, live, frozen, unit, scribble = ent
+            label, live, frozen, unit, scribble, notes = ent
+            if notes:
+                for note in notes:
+                    ctx.violation(f'the result of {label}: {note}', {'label': label})
+                ent[5] = []
             why = _difference(frozen, live)
             self.retention['retained_results_rechecked'] += 1
             if why is not None:
@@ -193,7 +263,7 @@ class Monitor:
         self._retained_per_label.clear()
         self.unit_no += 1
 
-    def attach(self, owner, name, pre=None, post=None, label=None, also=(), optional=False, retain=None, scribble=False):
+    def attach(self, owner, name, pre=None, post=None, label=None, also=(), optional=False, retain=None, scribble=False, own_result=False):
         """Wrap ``owner.name``.  Returns True if attached."""
         label = label or f'{getattr(owner, "__name__", type(owner).__name__)}.{name}'
         try:
@@ -204,13 +274,13 @@ class Monitor:
                 return False
             raise
         if isinstance(raw, property):
-            new = property(self._wrap_function(label, raw.fget, pre, post, retain, scribble), raw.fset, raw.fdel, raw.__doc__)
+            new = property(self._wrap_function(label, raw.fget, pre, post, retain, scribble, own_result), raw.fset, raw.fdel, raw.__doc__)
         elif isinstance(raw, classmethod):
-            new = classmethod(self._wrap_function(label, raw.__func__, pre, post, retain, scribble))
+            new = classmethod(self._wrap_function(label, raw.__func__, pre, post, retain, scribble, own_result))
         elif isinstance(raw, staticmethod):
-            new = staticmethod(self._wrap_function(label, raw.__func__, pre, post, retain, scribble))
+            new = staticmethod(self._wrap_function(label, raw.__func__, pre, post, retain, scribble, own_result))
         else:
-            new = self._wrap_function(label, raw, pre, post, retain, scribble)
+            new = self._wrap_function(label, raw, pre, post, retain, scribble, own_result)
         setattr(owner, name, new)
         self._undo.append((owner, name, raw))
         for mod, nm in also:
